@@ -388,6 +388,64 @@ var modifiers = []modifier{
 			w.Claim.Consolidatable = ""
 		}
 	}},
+	// ---- the same runs of the controller with a fault injected at one of its external calls ----
+	{"reconcile-drift-fails", "env", func(w *WorldIn) {
+		// the cloud provider's drift check errors; the Consolidation sub-reconciler still has to do its work
+		w.Reconcile = true
+		w.Fault = &RFault{Drift: "isDrifted"}
+	}},
+	{"reconcile-under-drift-fails", "method", func(w *WorldIn) {
+		// a pod event younger than consolidateAfter on a NodeClaim that is (still) Consolidatable, while the drift
+		// check of that run fails: the stale condition must be withdrawn all the same
+		w.Reconcile = true
+		w.Fault = &RFault{Drift: "isDrifted"}
+		if w.Claim != nil {
+			w.Claim.LastPodEvent = i64(floorSec(w.Now) - 40*sec)
+			w.Pool.ConsolidateAfter = i64(w.Now - *w.Claim.LastPodEvent + 1)
+		}
+	}},
+	{"reconcile-under-drift-notfound", "method", func(w *WorldIn) {
+		w.Reconcile = true
+		w.Fault = &RFault{Drift: "notFound"}
+		if w.Claim != nil {
+			w.Claim.LastPodEvent = i64(floorSec(w.Now) - 40*sec)
+			w.Pool.ConsolidateAfter = i64(w.Now - *w.Claim.LastPodEvent + 1)
+		}
+	}},
+	{"reconcile-under-its-fail", "method", func(w *WorldIn) {
+		// the instance-type lookup of the drift check fails (NodeClaim older than an hour)
+		w.Reconcile = true
+		w.Fault = &RFault{Drift: "instanceTypes"}
+		if w.Claim != nil {
+			w.Claim.LastPodEvent = i64(floorSec(w.Now) - 40*sec)
+			w.Pool.ConsolidateAfter = i64(w.Now - *w.Claim.LastPodEvent + 1)
+		}
+	}},
+	{"reconcile-under-patch-refused", "env", func(w *WorldIn) {
+		// the status write is refused: the controller cannot withdraw the condition in this run (the stale value stays)
+		w.Reconcile = true
+		w.Fault = &RFault{Patch: "conflict"}
+		if w.Claim != nil {
+			w.Claim.LastPodEvent = i64(floorSec(w.Now) - 40*sec)
+			w.Pool.ConsolidateAfter = i64(w.Now - *w.Claim.LastPodEvent + 1)
+		}
+	}},
+	{"reconcile-under-pool-unreadable", "env", func(w *WorldIn) {
+		w.Reconcile = true
+		w.Fault = &RFault{PoolGet: "error"}
+		if w.Claim != nil {
+			w.Claim.LastPodEvent = i64(floorSec(w.Now) - 40*sec)
+			w.Pool.ConsolidateAfter = i64(w.Now - *w.Claim.LastPodEvent + 1)
+		}
+	}},
+	{"reconcile-fresh-drift-fails", "env", func(w *WorldIn) {
+		// the controller must SET the condition although the drift check fails
+		w.Reconcile = true
+		w.Fault = &RFault{Drift: "isDrifted"}
+		if w.Claim != nil {
+			w.Claim.Consolidatable = ""
+		}
+	}},
 	{"claim-uninitialized-cond", "env", func(w *WorldIn) {
 		if w.Claim != nil {
 			w.Claim.Initialized = "False"
@@ -491,6 +549,29 @@ func genAnn(r *rand.Rand, now int64, start *int64) Ann {
 	}
 }
 
+// genFault: a fault for one run of the nodeclaim.disruption controller — mostly a failing drift check (the step
+// that runs before the Consolidatable condition is maintained), sometimes an unreadable NodePool or a refused status
+// patch, sometimes two at once.
+func genFault(r *rand.Rand) *RFault {
+	f := &RFault{}
+	switch x := r.IntN(10); {
+	case x < 6:
+		f.Drift = pick(r, driftFaultKinds...)
+	case x < 7:
+		f.PoolGet = "error"
+	case x < 9:
+		f.Patch = pick(r, patchFaultKinds...)
+	default:
+		f.Drift = pick(r, driftFaultKinds...)
+		if r.IntN(2) == 0 {
+			f.Patch = pick(r, patchFaultKinds...)
+		} else {
+			f.PoolGet = "error"
+		}
+	}
+	return f
+}
+
 func genPod(r *rand.Rand, now int64) PodIn {
 	p := PodIn{OnNode: r.IntN(8) > 0, Ns: r.IntN(2), Phase: "Running"}
 	if r.IntN(3) > 0 {
@@ -574,7 +655,11 @@ func genWorld(r *rand.Rand, thorough bool) any {
 			w.Claim.LastPodEvent = nil
 			w.Claim.InitAt = t
 		}
-		w.Claim.Consolidatable = pick(r, "", "True", "False")
+		w.Claim.Consolidatable = pick(r, "", "True", "True", "False")
+		// half of these runs with a fault at one (sometimes two) of the controller's external calls
+		if r.IntN(2) == 0 {
+			w.Fault = genFault(r)
+		}
 	}
 	c := CaseIn{WorldIn: *w, Base: "rnd-" + base}
 	for _, i := range idx {
